@@ -262,7 +262,19 @@ def d1(ctx):
     fn = mod.func('dict_insertion_ordered')
     cfg = pycfg(fn)
     reads = [c for c in calls_under(fn) if call_name(c) == '_C.is_dict_insertion_ordered']
-    sets = [c for c in calls_under(fn) if call_name(c) == '_C.set_dict_insertion_ordered']
+    # sites where the mode is written: direct calls, and calls of a local helper that writes it
+    # (a helper is looked through one level: `restore()` stands for the set call inside it)
+    direct = [c for c in calls_under(fn) if call_name(c) == '_C.set_dict_insertion_ordered']
+    inner_of = {id(c): (c, None) for c in direct}
+    sets = list(direct)
+    for q_, h_ in mod.funcs.items():
+        if q_.startswith('dict_insertion_ordered.') and q_.count('.') == 1:
+            inner = [c for c in calls_under(h_) if call_name(c) == '_C.set_dict_insertion_ordered']
+            if len(inner) == 1:
+                for c in calls_under(fn):
+                    if call_name(c) == h_.name:
+                        sets.append(c)
+                        inner_of[id(c)] = (inner[0], h_)
     yields = [n for n in walk(fn) if isinstance(n, (ast.Yield, ast.YieldFrom))]
     ctx.require(len(reads) >= 1 and len(sets) >= 2,
                 'dict_insertion_ordered: %d reads / %d sets of the mode' % (len(reads), len(sets)))
@@ -288,7 +300,11 @@ def d1(ctx):
             prev = s.targets[0].id
     ctx.require(prev is not None, 'dict_insertion_ordered: result of the read is not stored')
     sets_sorted = sorted(sets, key=lambda c: c.lineno)
-    enter, restore = sets_sorted[0], sets_sorted[1]
+    enter = sets_sorted[0]
+    restores = sets_sorted[1:]
+    restore = restores[0]
+    restore_inner, restore_helper = inner_of[id(restore)]
+    enter_inner = inner_of[id(enter)][0]
     w_read = _enclosing_with(fn, rd)
     w_set = _enclosing_with(fn, enter)
     ctx.check('dict_insertion_ordered/read-and-set-atomic',
@@ -296,7 +312,7 @@ def d1(ctx):
               cfg.dominates(cfg.node_of(rd), cfg.node_of(enter)) and cfg.node_of(rd) != cfg.node_of(enter),
               'read-previous and set-new happen in this order inside one `with %s` block' % LOCK,
               'read-previous and set-new are not in one locked block in that order', mod.loc(enter))
-    ea = [src(a) for a in enter.args]
+    ea = [src(a) for a in enter_inner.args]
     # the requested mode: the function's positional parameter, possibly through bool(...) or a
     # local that holds bool(<mode>)
     mp = (fn.args.posonlyargs + fn.args.args)[0].arg if (fn.args.posonlyargs + fn.args.args) else 'mode'
@@ -307,37 +323,29 @@ def d1(ctx):
     ctx.check('dict_insertion_ordered/sets-requested', len(ea) == 2 and ea[1] == 'namespace' and
               bool(okmode),
               'the new mode is set for the same namespace', 'enter sets %s' % ea, mod.loc(enter))
-    ra = [src(a) for a in restore.args]
+    ra = [src(a) for a in restore_inner.args]
     ctx.check('dict_insertion_ordered/restores-saved', ra == [prev, 'namespace'],
               'the restore writes exactly the saved flag for the same namespace',
               'the restore writes %s (saved value is `%s`, namespace variable is `namespace`)'
               % (ra, prev), mod.loc(restore))
-    # try/finally shape
-    trys = [s for s in walk(fn) if isinstance(s, ast.Try)]
-    ok = False
-    why = 'no try statement'
-    for t in trys:
-        in_body = any(isinstance(x, (ast.Yield, ast.YieldFrom)) for b in t.body for x in ast.walk(b))
-        in_final = any(x is restore for b in t.finalbody for x in ast.walk(b))
-        if in_body and in_final:
-            wr = _enclosing_with(fn, restore)
-            swallowing = [h for h in t.handlers
-                          if not any(isinstance(x, ast.Raise) for x in ast.walk(h))]
-            if swallowing:
-                why = 'an except clause swallows the exception of the with-body'
-            elif not _with_lock(wr):
-                why = 'the restore is not under the lock'
-            else:
-                ok = True
-        elif in_body:
-            why = 'the restore is not in a `finally` of the try that contains the yield'
+    # the exception of the with-body is never swallowed and the restore holds the lock
+    trys = [s_ for s_ in walk(fn) if isinstance(s_, ast.Try)]
+    ty = [t for t in trys if any(isinstance(x, (ast.Yield, ast.YieldFrom)) for b_ in t.body for x in ast.walk(b_))]
+    swallowing = [h for t in ty for h in t.handlers if not any(isinstance(x, ast.Raise) for x in ast.walk(h))]
+    wr = _enclosing_with(restore_helper if restore_helper is not None else fn, restore_inner)
+    ok = bool(ty) and not swallowing and _with_lock(wr)
+    why = ('the yield is not inside a try statement' if not ty else
+           'an except clause swallows the exception of the with-body' if swallowing else
+           'the restore is not under the lock')
     ctx.check('dict_insertion_ordered/finally', ok,
-              'the yield is the body of a try whose finally restores the flag under the lock',
+              'the yield is guarded by a try statement that swallows nothing, and the restore runs '
+              'under the lock',
               why, mod.loc(fn))
     # every path from the set to any exit passes the restore; nothing between set and try
-    en, rn = cfg.node_of(enter), {cfg.node_of(restore)}
+    en = cfg.node_of(enter)
     # the exceptional copy of the finally block has its own CFG node for the same AST: collect all
-    rn = {n.idx for n in cfg.nodes if n.ast is not None and any(x is restore for x in ast.walk(n.ast))}
+    rn = {n.idx for n in cfg.nodes if n.ast is not None and
+          any(x is r_ for r_ in restores for x in ast.walk(n.ast))}
     leak_normal = not cfg.must_pass(en, rn, cfg.exit.idx)
     leak_exc = not cfg.must_pass(en, rn, cfg.raise_exit.idx)
     ctx.check('dict_insertion_ordered/restore-on-every-path', not leak_normal and not leak_exc,
@@ -348,7 +356,9 @@ def d1(ctx):
     idx = {id(s): i for i, s in enumerate(fn.body)}
     wi = [i for i, s in enumerate(fn.body) if s is w_set]
     ti = [i for i, s in enumerate(fn.body) if isinstance(s, ast.Try)]
-    ctx.check('dict_insertion_ordered/nothing-between', bool(wi and ti and ti[0] == wi[0] + 1),
+    between = fn.body[wi[0] + 1:ti[0]] if (wi and ti and ti[0] > wi[0]) else None
+    harmless = between is not None and all(isinstance(x, (ast.FunctionDef, ast.Pass)) for x in between)
+    ctx.check('dict_insertion_ordered/nothing-between', bool(wi and ti and harmless),
               'the try statement directly follows the locked block that switches the mode',
               'statements between the mode switch and the try can raise and skip the restore',
               mod.loc(fn))
